@@ -167,13 +167,15 @@ P = {
        "(leading zeros/'1's), invalid character ⇔ InvalidBase58Error, CBase58Data accepts exactly "
        "version‖payload‖H(version‖payload)[:4] with total length ≥ 5 and otherwise raises the checksum error, text "
        "round trip for all 256 versions (for SHA-256d with the digest length proved: check_roundtrip_sha256d). "
+       "Corollaries: encode_injective, decode_injective. "
        "T1: alphabet. T2: all byte strings ≤ 2 and alphabet strings ≤ 3 exhaustively, every single-character "
        "corruption of valid strings, non-ASCII input.",
   note=TB,
   tech="Lean 4 proof (Nat.digits-style numeral lemmas) + generated-table equality + model/implementation correspondence"),
  'C11': dict(
   text="PROVED: polymod = BIP173 BCH residue, checksum_verifies, convertbits padding rule and round trip, decode "
-       "accepts ⇔ the declarative Spec.ValidSegwit, encode_decode for all versions/lengths, mixed case rejected, and "
+       "accepts ⇔ the declarative Spec.ValidSegwit, a string is valid for at most ONE expected prefix (prefix_unique, "
+       "decode_rejects_shorter_prefix), encode_decode for all versions/lengths, mixed case rejected, and "
        "the code distance: a same-length string whose LOWER-CASE form differs from a valid ≤ 90-character address "
        "in 1–4 places is rejected; after ≤ 4 character substitutions the result is rejected unless only letter case "
        "changed (then mixed case is rejected, all-upper-case is the same address: mixed_case_rejected, "
@@ -251,8 +253,9 @@ P = {
        "(= truncation to three sign-magnitude bytes), encode_decode on canonical values, pow_iff against Bitcoin "
        "Core's SetCompact/CheckProofOfWork and pow_iff_target in the property's own wording, rejection is a "
        "validation error for a ≥ 32-byte hash (the struct.error branch of a short hash is explicit), byte length = "
-       "(bit_length+7)>>3. T1: per-chain work limits = Bitcoin Core's consensus.powLimit values (D22: signet had "
-       "mainnet's). T2: the full exponent × boundary-mantissa grid, all bit lengths, hashes at target±1 under the "
+       "(bit_length+7)>>3; truncation never rounds up and loses less than one unit of the lowest kept byte "
+       "(truncTop3_le/_close, decode_encode_le, pow_accept_below_value). T1: per-chain work limits = Bitcoin Core's consensus.powLimit values (D22: signet had "
+       "mainnet's). T2: the full exponent × boundary-mantissa grid, wrap-around words at the overflow exponents, all bit lengths, hashes at target±1 under the "
        "four chains in both orders.",
   note=TB + "Python int &,>>,<< on non-negative ints modelled as mod/div/mul by powers of two.",
   tech="Lean 4 proof (omega/interval_cases arithmetic) + generated-table equality + correspondence"),
